@@ -23,6 +23,7 @@ type treeSpec struct {
 	Files map[string][]byte `json:"-"`
 	Sizes map[string]int    `json:"files,omitempty"` // for printing
 	Links map[string]string `json:"links,omitempty"`
+	Tag   string            `json:"tag,omitempty"` // named fixed shape: part of the violation signature
 }
 
 func (t *treeSpec) sortedFiles() []string {
